@@ -235,6 +235,20 @@ def c01_7(ctx):
         l0 = _def_line(fn, n.id, a0)
         l1 = _def_line(fn, n.id, a1)
         if l0 is None or l1 is None:
+            # recognised wrong form: the integer that was read is replaced by a function of itself before it reaches the constructor
+            rewritten = None
+            for a in (a0, a1):
+                if isinstance(a, ast.Name):
+                    for d in rd.reaching(n.id, a.id):
+                        g = rd.gen.get(d, {}).get(a.id)
+                        if g and g[0] == "val" and isinstance(g[1], (ast.BinOp, ast.Call, ast.IfExp)) and any(isinstance(x, ast.Name) and x.id == a.id for x in ast.walk(g[1])) \
+                                and not any(isinstance(x, ast.Call) and call_name(x) in ("read", "int", "big_endian_to_int", "from_bytes", "hex") for x in ast.walk(g[1])):
+                            rewritten = (a.id, g[1])
+            if rewritten:
+                out.append(ctx.bad("pecc:Signature.parse", "the integer read for `%s` is replaced by `%s` on some path before the constructor gets it: decoding no longer returns the "
+                                                           "pair that was encoded (parse(Signature(r, s).der()) != (r, s) for the values that path changes)" % (
+                                                               rewritten[0], ast.unparse(rewritten[1])), n.ast, mod, key="parse-verbatim"))
+                continue
             raise AnalysisError("Signature.parse: cannot order the reads of r and s")
         if l0 < l1:
             out.append(ctx.ok("pecc:Signature.parse", "first integer read (line %d) becomes r, second (line %d) becomes s" % (l0, l1), n.ast, mod, key="parse-order"))
